@@ -84,6 +84,8 @@ int main() {
   printf("#define VP_CC_CLOSE %d\n#define VP_CC_KEEPALIVE %d\n#define VP_CC_EXT %d\n#define VP_EXPECT_CONTINUE %d\n#define VP_EXPECT_EXT %d\n", (int)ConnectionControl::Close, (int)ConnectionControl::KeepAlive, (int)ConnectionControl::Ext, (int)Expectation::Continue, (int)Expectation::Ext);
   printf("#define VP_ENC_VALUES %d,%d,%d,%d,%d,%d\n", (int)Header::Encoding::Gzip, (int)Header::Encoding::Compress, (int)Header::Encoding::Deflate, (int)Header::Encoding::Identity, (int)Header::Encoding::Chunked, (int)Header::Encoding::Unknown);
   O(ResponseStream_buf, ResponseStream, buf_); O(ResponseStream_transport, ResponseStream, transport_); S(ResponseStream, ResponseStream);
+  O(CacheControl_directives, Header::CacheControl, directives_); S(CacheDirective, CacheDirective); O(CacheDirective_directive, CacheDirective, directive_);
+  printf("#define VP_CD_MAXAGE %d\n#define VP_CD_MAXSTALE %d\n#define VP_CD_MINFRESH %d\n#define VP_CD_SMAXAGE %d\n#define VP_CD_EXT %d\n", (int)CacheDirective::MaxAge, (int)CacheDirective::MaxStale, (int)CacheDirective::MinFresh, (int)CacheDirective::SMaxAge, (int)CacheDirective::Ext);
   printf("#define SIZEOF_WriteDeque %zu\n", sizeof(std::deque<Tcp::Transport::WriteEntry>));
   printf("#define VP_MIME_TYPES ");
 #define TYPE(val, str) printf("\"%s\",", str);
